@@ -169,11 +169,11 @@ def run(ctx):
         remote_every, pack_every = 12, 8
     else:
         plan = [("<=4 revisions, ghost", hc.gen_cfg(1, 4, 2, 1), LF, True, True),
-                ("5 revisions", hc.gen_cfg(5, 5, 2, 0, 2, off), L, True, False),
-                ("5 revisions, ghost", hc.gen_cfg(5, 5, 2, 1, 12, off), L, True, False),
+                ("5 revisions", hc.gen_cfg(5, 5, 2, 0, 3, off), L, True, False),
+                ("5 revisions, ghost", hc.gen_cfg(5, 5, 2, 1, 16, off), L, True, False),
                 ("<=4 revisions, 3 parents, ghost", hc.gen_cfg(3, 4, 3, 1, 3, off), L, True, False),
-                ("6 revisions", hc.gen_cfg(6, 6, 2, 0, 60, off), L, True, False)]
-        remote_every, pack_every = 8, 5
+                ("6 revisions", hc.gen_cfg(6, 6, 2, 0, 80, off), L, True, False)]
+        remote_every, pack_every = 10, 5
     cases = hc.generate(ctx, "HistoryC21Gen", plan)
     groups = hc.group_by_graph(cases)
     jobs = [("2a", g) for g in groups]
